@@ -271,6 +271,31 @@ impl Case for WCase {
                 wide!(u64, "msb::<u64>");
                 wide!(usize, "msb::<usize>");
                 wide!(u128, "msb::<u128>");
+                // signed types satisfy the PrimInt bound too: the highest set bit of the two's complement representation
+                for v in i8::MIN..=i8::MAX {
+                    ctx.obs("msb::<i8>", "", v as u8 as u128, 0, 0, Exp::Is(naive(v as u8 as u128)), || msb(v));
+                }
+                for v in i16::MIN..=i16::MAX {
+                    ctx.obs("msb::<i16>", "", v as u16 as u128, 0, 0, Exp::Is(naive(v as u16 as u128)), || msb(v));
+                }
+                macro_rules! signed {
+                    ($t:ty, $u:ty, $name:expr) => {
+                        let bits = <$t>::BITS;
+                        let mut vals: Vec<$t> = vec![0, 1, 5, -1, -2, <$t>::MAX, <$t>::MAX - 1, <$t>::MIN, <$t>::MIN + 1];
+                        for i in 0..bits - 1 {
+                            vals.push((1 as $t) << i);
+                            vals.push(((1 as $t) << i) | 1);
+                            vals.push(-((1 as $t) << i));
+                        }
+                        for v in vals {
+                            ctx.obs($name, "", v as $u as u128, 0, 0, Exp::Is(naive(v as $u as u128)), || msb(v));
+                        }
+                    };
+                }
+                signed!(i32, u32, "msb::<i32>");
+                signed!(i64, u64, "msb::<i64>");
+                signed!(isize, usize, "msb::<isize>");
+                signed!(i128, u128, "msb::<i128>");
             }
             WCase::Part { four, elem, shift } => {
                 ctx.note_input(&(four, elem, shift), true);
